@@ -7,9 +7,11 @@ pub mod util;
 pub mod c03;
 pub mod c05;
 pub mod c06;
+pub mod c07;
 pub mod c08;
 pub mod c11;
 pub mod c12;
+pub mod c14;
 pub mod c15;
 pub mod c16;
 pub mod c20;
@@ -40,6 +42,8 @@ pub fn dispatch(prop: &str, m: &Model, ctx: &mut Ctx, facts: Option<&Value>) -> 
         "C03" => c03::run(m, ctx),
         "C05" => c05::run(m, ctx),
         "C06" => c06::run(m, ctx),
+        "C07" => c07::run(m, ctx),
+        "C14" => c14::run(m, ctx),
         "C15" => c15::run(m, ctx),
         "C08" => c08::run(m, ctx, loaded.as_ref().unwrap()),
         "C11" => c11::run(m, ctx, loaded.as_ref().unwrap()),
